@@ -260,6 +260,9 @@ class World(object):
         if a == 'ret':
             if setter is None:
                 fired['cb_return[%s]' % act['v']['t']] += 1
+                if act['v']['t'] == 'lazy':
+                    fired['cb_return_lazy[%s]' % act['v']['v']] += 1
+                    return V.dec(act['v'])      # a fresh iterator every time
                 return act['_o']
             return None
         if a == 'retobj':          # reference runs only: a Python object, never serialised
@@ -272,7 +275,10 @@ class World(object):
             objs = act['_o']
             if len(objs) > 1:
                 fired['setter_twice'] += 1
-            for o in objs:
+            for k_, o in enumerate(objs):
+                if act['v'][k_]['t'] == 'lazy':
+                    o = V.dec(act['v'][k_])
+                    fired['setter_lazy[%s]' % act['v'][k_]['v']] += 1
                 if o is None:
                     fired['setter_none'] += 1
                 elif o is False or (not isinstance(o, (list, tuple, dict)) and o == 0) or o == '' or o == []:
